@@ -5,6 +5,7 @@ import scen_common
 PID = "C11"
 PROP_V = ["Props/Properties_C11.v"]
 GEN_MODULES = ["Consts", "Sites"]
+FLOW_FILES = ['wait.c']
 REPLAY_HINT = "VRT_SEED=<seed> [VRT_NOBJ=<n>] [VRT_KIND=<k>] _work/h/waitn_mix"
 PARTIAL = ["C11_mutex is proved as C11_mutex_partial (unlock runs after every enqueue call and lock runs iff unlock ran); the design's stronger "
            "reading 'unlock only if ALL enqueues succeeded' is refuted (C11_mutex_refuted): when the LAST object turns out ready at its enqueue, "
